@@ -167,21 +167,34 @@ def run_model(lines, timeout=600):
 
 
 def run_harness(lines, timeout=900, env=None, stdin_data=None):
-    """Returns list of (answer, extra_lines_printed_before_it)."""
-    p = subprocess.run([HARNESS_BIN, '--verif'], input='\n'.join(lines) + '\n', capture_output=True, text=True,
-                       timeout=timeout, env=env or ENV, errors='replace')
-    res, extra = [], []
-    for l in p.stdout.split('\n'):
-        if l.startswith('@@ '):
-            res.append((l[3:], extra)); extra = []
-        elif l:
-            extra.append(l)
-    if len(res) != len(lines):
-        # the harness died (abort / alloc failure): report which request killed it
-        res.append((f'HARNESS-DIED rc={p.returncode} stderr={p.stderr[-300:]!r}', extra))
-        while len(res) < len(lines):
-            res.append(('HARNESS-DIED', []))
-    return res
+    """Returns list of (answer, extra_lines_printed_before_it).  A harness process that dies or hangs on a
+    request (abort, allocation failure, watchdog) is restarted for the remaining requests."""
+    res = []
+    todo = list(lines)
+    restarts = 0
+    while todo:
+        p = subprocess.run([HARNESS_BIN, '--verif'], input='\n'.join(todo) + '\n', capture_output=True, text=True,
+                           timeout=timeout, env=env or ENV, errors='replace')
+        got, extra = [], []
+        for l in p.stdout.split('\n'):
+            if l.startswith('@@ '):
+                got.append((l[3:], extra)); extra = []
+            elif l:
+                extra.append(l)
+        res += got
+        if len(got) >= len(todo):
+            break
+        # the request after the last answered one killed the harness (unless the last answer itself says HANG)
+        if not (got and got[-1][0].endswith(' HANG') and p.returncode == 3):
+            res.append((f'HARNESS-DIED rc={p.returncode} stderr={p.stderr[-300:]!r}', extra))
+            todo = todo[len(got) + 1:]
+        else:
+            todo = todo[len(got):]
+        restarts += 1
+        if restarts > 20:
+            res += [('HARNESS-DIED (too many restarts)', [])] * len(todo)
+            break
+    return res[:len(lines)] + [('HARNESS-DIED', [])] * max(0, len(lines) - len(res))
 
 
 def X(s):
